@@ -268,14 +268,15 @@ func (c *config) describe() string {
 
 // ---------------------------------------------------------------- the two list types behind one interface
 
-type nodeT interface {
+type nodeT[N any] interface {
 	comparable
 	Key() int
 	Value() int
 	SetValue(int)
+	Next() N
 }
 
-type listT[N nodeT] interface {
+type listT[N nodeT[N]] interface {
 	Len() int
 	Set(int, int)
 	SetNx(int, int) bool
@@ -362,7 +363,7 @@ func (c *collector) reset(stop int) { c.n, c.stop, c.over = 0, stop, false }
 
 const never = 1 << 30
 
-type inst[N nodeT, L listT[N]] struct {
+type inst[N nodeT[N], L listT[N]] struct {
 	cfg   *config
 	start int
 	l     L
@@ -817,6 +818,98 @@ func (x *inst[N, L]) battery(what *callDesc) *space.Mismatch {
 	}
 	if !okv {
 		return x.mis("Values|wrong-sequence", "Values() = %v for keys %v", vs, x.expK[:en])
+	}
+
+	// the node chain: Head(), then Next() to nil, is the binding sequence; GetNode(k).Next() is the
+	// successor binding
+	*what = callDesc{name: "Head/Next walk"}
+	{
+		i := 0
+		for n := l.Head(); n != zero; n = n.Next() {
+			if i >= en || n.Key() != x.expK[i] || n.Value() != x.val[x.expK[i]] {
+				return x.mis("Next|wrong-chain", "walking Head(), Next(), ...: node %d is %d=%d, want the bindings %v in order and then nil", i, n.Key(), n.Value(), x.expK[:en])
+			}
+			i++
+			if i > 64 {
+				return x.mis("Next|wrong-chain", "the Next() chain does not end")
+			}
+		}
+		if i != en {
+			return x.mis("Next|wrong-chain", "walking Head(), Next(), ... ends after %d nodes, want %d", i, en)
+		}
+		for j := 0; j < en; j++ {
+			nx := l.GetNode(x.expK[j]).Next()
+			if j == en-1 {
+				if nx != zero {
+					return x.mis("Next|wrong-chain", "GetNode(%d).Next() is a node (key %d), want nil after the last binding", x.expK[j], nx.Key())
+				}
+			} else if nx == zero || nx.Key() != x.expK[j+1] {
+				return x.mis("Next|wrong-chain", "GetNode(%d).Next() is not the node of the next key %d", x.expK[j], x.expK[j+1])
+			}
+		}
+	}
+	// every enumerating entry point run to completion from inside the callback of every other one
+	// (and Keys, Values, Head, GetNode): reads do not change the map, the outer walk is unaffected
+	if en >= 1 {
+		inner := func() {
+			n := 0
+			l.Range(func(int, int) bool { n++; return true })
+			l.RangeWithStart(x.expK[0], func(int, int) bool { n++; return true })
+			for range l.All() {
+				n++
+			}
+			l.Keys()
+			l.Values()
+			l.Head()
+			l.GetNode(x.expK[en-1])
+		}
+		cb := func(k, v int) bool { inner(); return col.add(k, v) }
+		*what = callDesc{name: "Range (with Range, RangeWithStart, All, Keys, Values, Head, GetNode called from its callback)"}
+		col.reset(never)
+		l.Range(cb)
+		if mm := x.expect(*what, 0, en, never); mm != nil {
+			return mm
+		}
+		*what = callDesc{name: "RangeWithStart (with the other enumerations called from its callback)", n: 1, a: x.expK[0]}
+		col.reset(never)
+		l.RangeWithStart(x.expK[0], cb)
+		if mm := x.expect(*what, 0, en, never); mm != nil {
+			return mm
+		}
+		*what = callDesc{name: "All (with the other enumerations called from the loop body)"}
+		col.reset(never)
+		for k, v := range l.All() {
+			inner()
+			if !col.add(k, v) {
+				break
+			}
+		}
+		if mm := x.expect(*what, 0, en, never); mm != nil {
+			return mm
+		}
+		// two All() sequences advanced in lock-step
+		*what = callDesc{name: "All (two sequences pulled in lock-step)"}
+		next1, stop1 := iter.Pull2(l.All())
+		next2, stop2 := iter.Pull2(l.All())
+		for i := 0; i <= en; i++ {
+			k1, v1, ok1 := next1()
+			k2, v2, ok2 := next2()
+			if i == en {
+				if ok1 || ok2 {
+					stop1()
+					stop2()
+					return x.mis("All|wrong-sequence", "two All() sequences pulled in lock-step: a sequence yields more than the %d bindings", en)
+				}
+				break
+			}
+			if !ok1 || !ok2 || k1 != x.expK[i] || k2 != x.expK[i] || v1 != x.val[k1] || v2 != x.val[k2] {
+				stop1()
+				stop2()
+				return x.mis("All|wrong-sequence", "two All() sequences pulled in lock-step: step %d gives (%d=%d,%v) and (%d=%d,%v), want key %d from both", i, k1, v1, ok1, k2, v2, ok2, x.expK[i])
+			}
+		}
+		stop1()
+		stop2()
 	}
 
 	// stops: after each possible count, then never
